@@ -36,6 +36,7 @@ Section G.
   Inductive sp :=
     | SConst (t : tk) (k : ckind)
     | SSigned (sg d : tk) (neg : bool)
+    | SBool (bt hs v : tk) (b : bool)                      (* BOOL#TRUE / BOOL#FALSE *)
     | SName (t : tk) (w : list tk)
     | SCall0 (t : tk) (w1 : list tk) (lp : tk) (w2 : list tk) (rp : tk)
     | SCallN (t : tk) (w1 : list tk) (lp : tk) (w2 : list tk) (p : spar) (ps : spars) (w3 : list tk) (rp : tk)
@@ -62,6 +63,7 @@ Section G.
     match s with
     | SConst t _ => [t]
     | SSigned sg d _ => [sg; d]
+    | SBool bt hs v _ => [bt; hs; v]
     | SName t w => t :: w
     | SCall0 t w1 lp w2 rp => t :: w1 ++ lp :: w2 ++ [rp]
     | SCallN t w1 lp w2 p ps w3 rp => t :: w1 ++ lp :: w2 ++ flatp p ++ flatps ps ++ w3 ++ [rp]
@@ -85,6 +87,7 @@ Section G.
     match s with
     | SConst t k => XAtom (leaf_of tk txt num k t)
     | SSigned _ d neg => XAtom (LfInt neg (num d))
+    | SBool _ _ _ b => XAtom (LfBool b)
     | SName t _ => XAtom (LfName (txt t))
     | SCall0 t _ _ _ _ => XCall (txt t) []
     | SCallN t _ _ _ p ps _ _ => XCall (txt t) (erasep p :: eraseps ps)
@@ -106,7 +109,7 @@ Section G.
 
   Fixpoint size (s : sp) : nat :=
     match s with
-    | SConst _ _ | SSigned _ _ _ | SName _ _ => 1
+    | SConst _ _ | SSigned _ _ _ | SBool _ _ _ _ | SName _ _ => 1
     | SCall0 _ _ _ _ _ => 2
     | SCallN _ _ _ _ p ps _ _ => 2 + sizep p + sizeps ps
     | SParen _ _ s _ _ => 2 + size s
@@ -146,6 +149,7 @@ Section G.
     match s with
     | SConst t k => cl t = CConst k
     | SSigned sg d neg => neg = false /\ cl sg = COp BAdd /\ cl d = CConst CkInt
+    | SBool bt hs v b => cl bt = CBoolT /\ cl hs = CHash /\ cl v = CConst (if b then CkTrue else CkFalse)
     | SName t w => cl t = CId /\ all_triv w
     | SCall0 t w1 lp w2 rp => cl t = CId /\ all_triv w1 /\ cl lp = CLP /\ all_triv w2 /\ cl rp = CRP
     | SCallN t w1 lp w2 p ps w3 rp =>
@@ -238,6 +242,7 @@ Section G.
     destruct s; intros r H; cbn in H; try contradiction.
     - exists t, r. split; [reflexivity|]. eapply solid_of_class; [exact H | discriminate].
     - exists sg, (d :: r). split; [reflexivity|]. destruct H as [H _]. eapply solid_of_class; [exact H|]. destruct neg; discriminate.
+    - exists bt, (hs :: v :: r). split; [reflexivity|]. destruct H as [H _]. eapply solid_of_class; [exact H | discriminate].
     - exists t, (w ++ r). split; [reflexivity|]. destruct H as [H _]. eapply solid_of_class; [exact H | discriminate].
     - eexists t, _. split; [cbn; reflexivity|]. destruct H as [H _]. eapply solid_of_class; [exact H | discriminate].
     - eexists t, _. split; [cbn; reflexivity|]. destruct H as [H _]. eapply solid_of_class; [exact H | discriminate].
@@ -246,10 +251,11 @@ Section G.
 
   Lemma flat_solid s : forall p r, wf p s -> exists t r', flat s ++ r = t :: r' /\ solid t.
   Proof.
-    induction s as [t k|sg d neg|t w|t w1 lp w2 rp|t w1 lp w2 p0 ps w3 rp|tl w1 s IH w2 tr|t o w s IH|t o l IHl w1 w2 r IHr];
+    induction s as [t k|sg d neg|bt hs v b|t w|t w1 lp w2 rp|t w1 lp w2 p0 ps w3 rp|tl w1 s IH w2 tr|t o w s IH|t o l IHl w1 w2 r IHr];
       intros p rest H.
     - apply flat_solid_wfp. exact H.
     - apply flat_solid_wfp. cbn in H. destruct H as (-> & H1 & H2). cbn. tauto.
+    - apply flat_solid_wfp. exact H.
     - apply flat_solid_wfp. exact H.
     - apply flat_solid_wfp. exact H.
     - apply flat_solid_wfp. exact H.
@@ -278,10 +284,11 @@ Section G.
   Lemma head_ident_next s : forall p rest, wf p s -> plain_next rest ->
     match flat s ++ rest with t :: r' => cl t = CId -> plain_next r' | [] => True end.
   Proof.
-    induction s as [t k|sg d neg|t w|t w1 lp w2 rp|t w1 lp w2 p0 ps w3 rp|tl w1 s IH w2 tr|t o w s IH|t o l IHl w1 w2 r IHr];
+    induction s as [t k|sg d neg|bt hs v b|t w|t w1 lp w2 rp|t w1 lp w2 p0 ps w3 rp|tl w1 s IH w2 tr|t o w s IH|t o l IHl w1 w2 r IHr];
       intros p rest H Hr; cbn [flat app].
     - cbn in H. intro E. rewrite H in E. discriminate.
     - cbn in H. destruct H as (_ & H & _). intro E. rewrite H in E. discriminate.
+    - cbn in H. destruct H as (H & _). intro E. rewrite H in E. discriminate.
     - cbn in H. destruct H as (_ & Hw). intros _. unfold plain_next. rewrite (skip_app_triv w rest Hw). exact Hr.
     - cbn in H. destruct H as (_ & Hw1 & Hlp & _). intros _. unfold plain_next. rewrite <- app_assoc. cbn [app].
       rewrite (skip_app_triv w1 _ Hw1). rewrite skip_solid by (eapply solid_of_class; [exact Hlp | discriminate]). rewrite Hlp. exact I.
@@ -301,10 +308,11 @@ Section G.
     | [] => True
     end.
   Proof.
-    induction s as [t k|sg d neg|t w|t w1 lp w2 rp|t w1 lp w2 p0 ps w3 rp|tl w1 s IH w2 tr|t o w s IH|t o l IHl w1 w2 r IHr];
+    induction s as [t k|sg d neg|bt hs v b|t w|t w1 lp w2 rp|t w1 lp w2 p0 ps w3 rp|tl w1 s IH w2 tr|t o w s IH|t o l IHl w1 w2 r IHr];
       intros p rest H Hr; cbn [flat app].
     - cbn in H. intro E. rewrite H in E. discriminate.
     - cbn in H. destruct H as (_ & H & _). intro E. rewrite H in E. discriminate.
+    - cbn in H. destruct H as (H & _). intro E. rewrite H in E. discriminate.
     - cbn in H. destruct H as (H & _). intro E. rewrite H in E. discriminate.
     - cbn in H. destruct H as (H & _). intro E. rewrite H in E. discriminate.
     - cbn in H. destruct H as (H & _). intro E. rewrite H in E. discriminate.
@@ -315,6 +323,7 @@ Section G.
       destruct s; cbn in Hs; try contradiction.
       + cbn. intro E. rewrite Hs in E. discriminate.
       + cbn. destruct Hs as (Hs & _). intro E. rewrite Hs in E. destruct neg; discriminate.
+      + cbn. destruct Hs as (Hs & _). intro E. rewrite Hs in E. discriminate.
       + exact (head_ident_next (SName t0 w0) 0 rest Hs Hr).
       + exact (head_ident_next (SCall0 t0 w1 lp w2 rp) 0 rest Hs Hr).
       + exact (head_ident_next (SCallN t0 w1 lp w2 p0 ps w3 rp) 0 rest Hs Hr).
@@ -349,6 +358,7 @@ Section G.
     - split; [exact H|]. exists t, rest. split; [reflexivity|]. unfold solid, StParser.uop_of. rewrite H. split; [discriminate | reflexivity].
     - destruct H as (-> & H1 & H2). split; [cbn; tauto|]. exists sg, (d :: rest). split; [reflexivity|].
       unfold solid, StParser.uop_of. rewrite H1. split; [discriminate | reflexivity].
+    - split; [exact H|]. destruct H as (H & _). eexists bt, _. split; [cbn; reflexivity|]. unfold solid, StParser.uop_of. rewrite H. split; [discriminate | reflexivity].
     - split; [exact H|]. destruct H as (H & _). eexists t, _. split; [cbn; reflexivity|]. unfold solid, StParser.uop_of. rewrite H. split; [discriminate | reflexivity].
     - split; [exact H|]. destruct H as (H & _). eexists t, _. split; [cbn; reflexivity|]. unfold solid, StParser.uop_of. rewrite H. split; [discriminate | reflexivity].
     - split; [exact H|]. destruct H as (H & _). eexists t, _. split; [cbn; reflexivity|]. unfold solid, StParser.uop_of. rewrite H. split; [discriminate | reflexivity].
@@ -398,6 +408,11 @@ Section G.
       intros sg d neg. assert (HB : PB (SSigned sg d neg)).
       { intros (H1 & H2) rest _ F f _ _. cbn [flat app StParser.prim erase]. rewrite H1.
         destruct neg; rewrite H2; reflexivity. }
+      split; [apply A_of_B; [reflexivity | exact HB] | exact HB].
+    - (* BOOL#TRUE / BOOL#FALSE *)
+      intros bt hs v b. assert (HB : PB (SBool bt hs v b)).
+      { intros (H1 & H2 & H3) rest _ F f _ _. cbn [flat app StParser.prim erase]. rewrite H1, H2, H3.
+        destruct b; reflexivity. }
       split; [apply A_of_B; [reflexivity | exact HB] | exact HB].
     - (* identifier *)
       intros t w. assert (HB : PB (SName t w)).
